@@ -4,8 +4,13 @@
    (Scalar/EnumTable.v), castToEnumValue (Tree/Codec.v: enum_cast) and the generator's numbering
    (gen_enum_table, gen_identity_table).  The statement "for every generated type" is the
    regenerated obligation build/coqgen/C17_tables.v (written and compiled by lib/c17_pre.py on
-   every run), which instantiates c17_lift below. *)
-From Ygot Require Import Tree.Tree Tree.Codec Tree.CodecProofs Scalar.EnumTable Scalar.EnumTableProofs.
+   every run), which instantiates c17_lift / c17_colon_lift below.
+   The last part (c17_colon_...) restates Scalar/EnumColonProofs.v: the same code on tables whose
+   enumeration names may contain ':' (enum "ipv4:unicast"), where the well-formedness predicate is
+   about the KEY castToEnumValue compares, util.StripModulePrefix(name). *)
+From Coq Require Import Lia.
+From Ygot Require Import Tree.Tree Tree.Codec Tree.CodecProofs Scalar.EnumTable Scalar.EnumTableProofs
+  Scalar.EnumColon Scalar.EnumColonProofs.
 
 (* ---------- well-formed tables ---------- *)
 
@@ -204,4 +209,254 @@ Example c17_examples :
   enum_parse c17_color [103;114;101;101;110] = Err /\
   enum_field_to_string env false [67] 2 = Err /\
   enum_field_to_string env false [67] 0 = Ok ([], false).
+Proof. vm_compute. repeat split; reflexivity. Qed.
+
+
+(* ====================================================================================== *)
+(* ---------- enumeration names that contain ':' (Scalar/EnumColon.v) ---------- *)
+
+(* tblc_okb decides: values distinct, KEYS (the name after util.StripModulePrefix: "a:b" -> "b",
+   no ':' or two and more ':' -> unchanged) distinct and non-empty, 0 (UNSET) not defined, module
+   names without ':', and identities (entries with a defining module) without ':' in the name *)
+Theorem c17_colon_tbl_ok_spec : forall t, tblc_okb t = true <->
+  NoDup (map ev_num t) /\ NoDup (map (fun e => strip_mod (ev_name e)) t) /\ ~ In 0%Z (map ev_num t) /\
+  Forall (fun e => strip_mod (ev_name e) <> [] /\ ~ In COLON (ev_mod e) /\
+                   (ev_mod e <> [] -> ~ In COLON (ev_name e))) t.
+Proof. exact tblc_ok_spec. Qed.
+Print Assumptions c17_colon_tbl_ok_spec.
+
+(* the predicate of the first part is an instance, so every theorem below holds of the tables
+   accepted by tbl_okb_full; and on a table without ':' in any name the two predicates agree *)
+Theorem c17_colon_generalises : forall t, tbl_okb_full t = true -> tblc_okb t = true.
+Proof. exact tbl_okb_full_tblc_okb. Qed.
+Print Assumptions c17_colon_generalises.
+
+Theorem c17_colon_conservative : forall t, tbl_has_colonb t = false -> tblc_okb t = true -> tbl_okb_full t = true.
+Proof. exact tblc_okb_no_colon_full. Qed.
+Print Assumptions c17_colon_conservative.
+
+(* every defined non-zero value is rendered as its name (module:name for identities when asked);
+   the rendered text and the bare name parse back to the value.  With a prefix "m:" in front:
+   a name without ':' still parses to the value (any m), a name WITH ':' does not — the string
+   then has two or more ':' and StripModulePrefix leaves it alone *)
+Theorem c17_colon_bijection : forall env ty, tblc_okb (enum_table env ty) = true ->
+  forall n e, enum_by_num (enum_table env ty) n = Some e -> n <> 0%Z ->
+  forall pmi,
+    enum_field_to_string env pmi ty n = Ok (enum_text pmi e, true) /\
+    enum_parse (enum_table env ty) (enum_text pmi e) = Ok n /\
+    enum_parse (enum_table env ty) (ev_name e) = Ok n /\
+    (~ In COLON (ev_name e) -> forall m, ~ In COLON m ->
+       enum_parse (enum_table env ty) (m ++ COLON :: ev_name e) = Ok n) /\
+    (In COLON (ev_name e) -> forall m, ~ In COLON m ->
+       enum_parse (enum_table env ty) (m ++ COLON :: ev_name e) <> Ok n).
+Proof. exact enumc_bijection. Qed.
+Print Assumptions c17_colon_bijection.
+
+Theorem c17_colon_render_parse : forall env ty pmi n s,
+  tblc_okb (enum_table env ty) = true ->
+  enum_field_to_string env pmi ty n = Ok (s, true) -> enum_parse (enum_table env ty) s = Ok n.
+Proof. exact enumc_render_parse. Qed.
+Print Assumptions c17_colon_render_parse.
+
+Theorem c17_colon_bijection_json : forall env fo pmi ty n j,
+  tblc_okb (enum_table env ty) = true ->
+  enc_scalar env fo pmi (VEnum ty n) = Ok j ->
+  dec_json env fo (YEnum ty) j = Ok (VEnum ty n) /\ dec_json env fo (YIdref ty) j = Ok (VEnum ty n).
+Proof. exact enumc_bijection_json. Qed.
+Print Assumptions c17_colon_bijection_json.
+
+(* names, values and keys are unique within a type *)
+Theorem c17_colon_names_unique : forall t, tblc_okb t = true ->
+  NoDup (map ev_name t) /\ NoDup (map ev_num t) /\ NoDup (map (fun e => strip_mod (ev_name e)) t) /\
+  forall n1 n2 e1 e2, enum_by_num t n1 = Some e1 -> enum_by_num t n2 = Some e2 ->
+    ev_name e1 = ev_name e2 -> n1 = n2.
+Proof. exact enumc_names_unique. Qed.
+Print Assumptions c17_colon_names_unique.
+
+(* UNSET: as c17_unset_not_rendered_partial, for the wider class of tables *)
+Theorem c17_colon_unset_not_rendered_partial : forall env pmi ty,
+  enum_field_to_string env pmi ty 0 = Ok ([], false) /\
+  enum_leaf env pmi ty 0 = Ok None /\
+  (forall fo, tblc_okb (enum_table env ty) = true ->
+     enum_by_num (enum_table env ty) 0 = None /\
+     enc_enum env pmi ty 0 = Err /\
+     enc_scalar env fo pmi (VEnum ty 0) = Err).
+Proof. exact enumc_unset_not_rendered. Qed.
+Print Assumptions c17_colon_unset_not_rendered_partial.
+
+(* ---------- which strings parse ---------- *)
+
+(* exactly the strings whose stripped form equals the key of a defined value parse, to that
+   value; every other string is an error; parsing never panics *)
+Theorem c17_colon_parse_iff : forall t s n, tblc_okb t = true ->
+  (enum_parse t s = Ok n <->
+   exists e, enum_by_num t n = Some e /\ strip_mod (ev_name e) = strip_mod s).
+Proof. exact enumc_parse_iff. Qed.
+Print Assumptions c17_colon_parse_iff.
+
+Theorem c17_colon_parse_outcomes : forall t s,
+  (enum_parse t s = Err <-> forall e, In e t -> strip_mod (ev_name e) <> strip_mod s) /\
+  enum_parse t s <> Panic.
+Proof. intros. split; [apply enumc_parse_err_iff | apply enum_parse_no_panic]. Qed.
+Print Assumptions c17_colon_parse_outcomes.
+
+(* name -> value -> name: an accepted string is the KEY of the value's entry, or the key behind
+   one colon-free prefix *)
+Theorem c17_colon_parse_render : forall t s n, tblc_okb t = true -> enum_parse t s = Ok n ->
+  exists e, enum_by_num t n = Some e /\
+    (s = strip_mod (ev_name e) \/
+     exists m, s = m ++ COLON :: strip_mod (ev_name e) /\ ~ In COLON m /\ ~ In COLON (strip_mod (ev_name e))).
+Proof. exact enumc_parse_render. Qed.
+Print Assumptions c17_colon_parse_render.
+
+(* The weakness, stated positively: for a name "p:b" with one ':' the key is b, so the suffix b
+   alone and b behind ANY prefix m parse to the value although neither is a name of the type
+   ("unicast" and "zz:unicast" for enum "ipv4:unicast"). *)
+Theorem c17_colon_foreign_prefix_accepted : forall t n e p b m, tblc_okb t = true ->
+  enum_by_num t n = Some e -> ev_name e = p ++ COLON :: b ->
+  ~ In COLON p -> ~ In COLON b -> ~ In COLON m ->
+  enum_parse t b = Ok n /\ enum_parse t (m ++ COLON :: b) = Ok n.
+Proof. exact enumc_parse_foreign_prefix. Qed.
+Print Assumptions c17_colon_foreign_prefix_accepted.
+
+(* A module prefix in front of a name that contains ':' ("v-colon:ipv4:unicast"): accepted only
+   if that whole string is literally another name of the table, and then as THAT entry's value;
+   rejected otherwise.  (RFC 7951 never prefixes enumeration names; identities, which are
+   prefixed, have no ':' in their names.) *)
+Theorem c17_colon_prefixed_name : forall t n e m k, tblc_okb t = true ->
+  enum_by_num t n = Some e -> In COLON (ev_name e) -> ~ In COLON m ->
+  (enum_parse t (m ++ COLON :: ev_name e) = Ok k <->
+   exists e', enum_by_num t k = Some e' /\ ev_name e' = m ++ COLON :: ev_name e).
+Proof. exact enumc_parse_prefixed_colon_name. Qed.
+Print Assumptions c17_colon_prefixed_name.
+
+Theorem c17_colon_prefixed_name_rejected : forall t n e m, tblc_okb t = true ->
+  enum_by_num t n = Some e -> In COLON (ev_name e) -> ~ In COLON m ->
+  (forall e', In e' t -> ev_name e' <> m ++ COLON :: ev_name e) ->
+  enum_parse t (m ++ COLON :: ev_name e) = Err.
+Proof. exact enumc_parse_prefixed_colon_name_err. Qed.
+Print Assumptions c17_colon_prefixed_name_rejected.
+
+(* ---------- the corpus table and the refuted full statements ---------- *)
+
+(* E_VColon_AfiSafi of yang/v-colon.yang:
+   enum "ipv4:unicast"; enum "ipv6:labeled-unicast" { value 4; } enum "l2vpn:evpn"; enum plain; *)
+Definition c17_s_ipv4_unicast : str := [105;112;118;52;58;117;110;105;99;97;115;116].
+Definition c17_s_ipv6_lu : str := [105;112;118;54;58;108;97;98;101;108;101;100;45;117;110;105;99;97;115;116].
+Definition c17_s_l2vpn_evpn : str := [108;50;118;112;110;58;101;118;112;110].
+Definition c17_s_plain : str := [112;108;97;105;110].
+Definition c17_afisafi : list enumval :=
+  [ {| ev_num := 1; ev_name := c17_s_ipv4_unicast; ev_mod := [] |};
+    {| ev_num := 5; ev_name := c17_s_ipv6_lu; ev_mod := [] |};
+    {| ev_num := 6; ev_name := c17_s_l2vpn_evpn; ev_mod := [] |};
+    {| ev_num := 7; ev_name := c17_s_plain; ev_mod := [] |} ].
+Definition c17_s_zz_unicast : str := [122;122;58;117;110;105;99;97;115;116].                 (* "zz:unicast" *)
+Definition c17_s_unicast : str := [117;110;105;99;97;115;116].                           (* "unicast" *)
+Definition c17_s_mod_ipv4_unicast : str := [118;45;99;111;108;111;110;58;105;112;118;52;58;117;110;105;99;97;115;116].   (* "v-colon:ipv4:unicast" *)
+Definition c17_s_ipv4_lu : str := [105;112;118;52;58;108;97;98;101;108;101;100;45;117;110;105;99;97;115;116].  (* "ipv4:labeled-unicast" *)
+
+(* "An undefined name is rejected", at full strength (up to the one module prefix the code is
+   documented to ignore): an accepted string is a name of the type or "m:name".  Holds when no
+   name has a ':' (c17_colon_undefined_rejected_partial); false of the faithful model otherwise:
+   "zz:unicast" (and "unicast", and "ipv4:labeled-unicast") are accepted. *)
+Definition c17_colon_undefined_rejected_full : Prop := forall t s n,
+  tblc_okb t = true -> enum_parse t s = Ok n ->
+  exists e, enum_by_num t n = Some e /\ (s = ev_name e \/ exists m, s = m ++ COLON :: ev_name e).
+
+Theorem c17_colon_undefined_rejected_partial : forall t s n,
+  tbl_has_colonb t = false -> tblc_okb t = true -> enum_parse t s = Ok n ->
+  exists e, enum_by_num t n = Some e /\ (s = ev_name e \/ exists m, s = m ++ COLON :: ev_name e).
+Proof. exact enumc_undefined_rejected_guarded. Qed.
+Print Assumptions c17_colon_undefined_rejected_partial.
+
+Theorem c17_colon_undefined_rejected_refuted : ~ c17_colon_undefined_rejected_full.
+Proof.
+  intros H.
+  assert (Hok : tblc_okb c17_afisafi = true) by (vm_compute; reflexivity).
+  assert (Hp : enum_parse c17_afisafi c17_s_zz_unicast = Ok 1%Z) by (vm_compute; reflexivity).
+  destruct (H c17_afisafi c17_s_zz_unicast 1%Z Hok Hp) as (e & He & Hs).
+  vm_compute in He. injection He as <-. cbn [ev_name] in Hs. destruct Hs as [Hs | (m & Hs)].
+  - discriminate Hs.
+  - apply (f_equal (@length _)) in Hs. rewrite app_length in Hs. simpl in Hs. lia.
+Qed.
+Print Assumptions c17_colon_undefined_rejected_refuted.
+
+(* "Parsing the name with or without module prefix yields the same value", at full strength.
+   Holds for names without ':' (c17_colon_prefix_partial); false for a name with ':'. *)
+Definition c17_colon_prefix_full : Prop := forall t n e m,
+  tblc_okb t = true -> enum_by_num t n = Some e -> ~ In COLON m ->
+  enum_parse t (m ++ COLON :: ev_name e) = Ok n.
+
+Theorem c17_colon_prefix_partial : forall t n e m, tblc_okb t = true -> enum_by_num t n = Some e ->
+  ~ In COLON (ev_name e) -> ~ In COLON m -> enum_parse t (m ++ COLON :: ev_name e) = Ok n.
+Proof. exact enumc_parse_any_prefix. Qed.
+Print Assumptions c17_colon_prefix_partial.
+
+Theorem c17_colon_prefix_refuted : ~ c17_colon_prefix_full.
+Proof.
+  intros H.
+  assert (Hok : tblc_okb c17_afisafi = true) by (vm_compute; reflexivity).
+  specialize (H c17_afisafi 1%Z _ [118;45;99;111;108;111;110] Hok eq_refl).
+  assert (Hm : ~ In COLON [118;45;99;111;108;111;110]) by (apply no_colon_spec; reflexivity).
+  specialize (H Hm). vm_compute in H. discriminate H.
+Qed.
+Print Assumptions c17_colon_prefix_refuted.
+
+(* Two names with the same part after the ':' ("a:b" and "x:b") are legal, distinct YANG enum
+   names; the table is rejected by tblc_okb, and rightly: "x:b" (value 2) parses to 1. *)
+Definition c17_same_suffix : list (str * Z) := [([97;58;98], 0%Z); ([120;58;98], 1%Z)].
+Theorem c17_colon_same_suffix_refuted :
+  let t := gen_enum_table c17_same_suffix in
+  NoDup (map fst c17_same_suffix) /\ NoDup (map snd c17_same_suffix) /\
+  tblc_okb t = false /\
+  (exists e, enum_by_num t 2 = Some e /\ ev_name e = [120;58;98] /\ enum_parse t (ev_name e) = Ok 1%Z).
+Proof.
+  repeat split.
+  - repeat constructor; simpl; intuition discriminate.
+  - repeat constructor; simpl; intuition discriminate.
+  - eexists. repeat split.
+Qed.
+Print Assumptions c17_colon_same_suffix_refuted.
+
+(* ---------- per table, and the lifting used by the regenerated file ---------- *)
+
+Definition c17_colon_table_statement := colon_table_statement.
+
+Theorem c17_colon_table : forall t, tblc_okb t = true -> c17_colon_table_statement t.
+Proof. exact colon_table_statement_ok. Qed.
+Print Assumptions c17_colon_table.
+
+(* tbl_checkb applies tblc_okb to a table with a ':' in some name and tbl_okb_full to any other:
+   every checked table satisfies the colon statement, and a table without ':' also the statement
+   of the first part (c17_table_statement, with the module-prefixed form) *)
+Theorem c17_colon_lift : forall (ts : list (str * str * list enumval)),
+  forallb (fun t => tbl_checkb (snd t)) ts = true ->
+  forall t, In t ts ->
+    c17_colon_table_statement (snd t) /\ (tbl_has_colonb (snd t) = false -> c17_table_statement (snd t)).
+Proof. exact tbl_checkb_lift. Qed.
+Print Assumptions c17_colon_lift.
+
+(* the value+1 numbering of an enumeration statement whose names have distinct non-empty keys *)
+Theorem c17_colon_gen_enum_ok_partial : forall vals, yang_enumc_wf vals -> tblc_okb (gen_enum_table vals) = true.
+Proof. intros vals H. apply tblc_ok_spec. now apply gen_enum_table_wf_c. Qed.
+Print Assumptions c17_colon_gen_enum_ok_partial.
+
+(* ---------- non-vacuity ---------- *)
+
+Example c17_colon_examples :
+  let env := [([84], c17_afisafi)] in
+  tblc_okb c17_afisafi = true /\ tbl_okb_full c17_afisafi = false /\ tbl_checkb c17_afisafi = true /\
+  tbl_checkb c17_color = true /\ tbl_has_colonb c17_color = false /\ tblc_okb c17_baseid = true /\
+  gen_enum_table [(c17_s_ipv4_unicast, 0%Z); (c17_s_ipv6_lu, 4%Z); (c17_s_l2vpn_evpn, 5%Z); (c17_s_plain, 6%Z)] = c17_afisafi /\
+  enum_field_to_string env true [84] 1 = Ok (c17_s_ipv4_unicast, true) /\
+  enum_parse c17_afisafi c17_s_ipv4_unicast = Ok 1%Z /\
+  enum_parse c17_afisafi c17_s_ipv6_lu = Ok 5%Z /\
+  enum_parse c17_afisafi c17_s_plain = Ok 7%Z /\
+  enum_parse c17_afisafi c17_s_unicast = Ok 1%Z /\                (* undefined, accepted *)
+  enum_parse c17_afisafi c17_s_zz_unicast = Ok 1%Z /\             (* undefined, accepted *)
+  enum_parse c17_afisafi c17_s_ipv4_lu = Ok 5%Z /\                (* undefined, accepted as ipv6:labeled-unicast *)
+  enum_parse c17_afisafi c17_s_mod_ipv4_unicast = Err /\          (* module-prefixed, rejected *)
+  enum_parse c17_afisafi [105;112;118;52] = Err /\                (* "ipv4" *)
+  enum_field_to_string env false [84] 0 = Ok ([], false) /\
+  enum_field_to_string env false [84] 2 = Err.
 Proof. vm_compute. repeat split; reflexivity. Qed.
